@@ -691,8 +691,13 @@ def plan_exhaustive(st, S, T, full):
         part = bad[k:k + G]
         steps = []
         for i, v in enumerate(part):
-            steps += [{"sql": f"create temp table e{i} as select {R.lit(S, v)} as v"}, {"sql": f"select 0, CAST(v AS {T.sql}) from e{i}"}]
-        st.add(f"px/{S.key}/{T.key}/{k}", steps, {"kind": "pxg", "S": S, "T": T, "vals": part})
+            if k % (2 * G) == 0:
+                # column context: a one-row table per value
+                steps += [{"sql": f"create temp table e{i} as select {R.lit(S, v)} as v"}, {"sql": f"select 0, CAST(v AS {T.sql}) from e{i}"}]
+            else:
+                # constant context (folded): half the statements
+                steps += [{"sql": "select 0"}, {"sql": f"select 0, {sel(T, R.lit(S, v))}"}]
+        st.add(f"px/{S.key}/{T.key}/{k}", steps, {"kind": "pxg", "S": S, "T": T, "vals": part, "ctx": "column-probe" if k % (2 * G) == 0 else "const-probe"})
 
 
 def judge_nx(st, job, res, case):
@@ -745,9 +750,9 @@ def judge_pxg(st, job, res, case):
         r = obs_rows(T, s1)
         sub = {"id": case["id"], "steps": case["steps"][2 * i:2 * i + 2]}
         if r[0] == "err":
-            judge_num(st, S, T, v, ERR, "column-probe", sub)
+            judge_num(st, S, T, v, ERR, job.get("ctx", "column-probe"), sub)
         elif r[0] == "rows":
-            judge_num(st, S, T, v, r[1].get(0), "column-probe", sub)
+            judge_num(st, S, T, v, r[1].get(0), job.get("ctx", "column-probe"), sub)
         else:
             chk.violation({"kind": "result-type", "conv": conv}, f"{case['id']}: {r[1]}", {"cases": [sub], "run_kw": {"env": ENV}})
 
